@@ -211,10 +211,11 @@ def build_harness(name, variant, src=None, extra_flags=(), extra_link=(), fine_t
     """Build /verif/harness/<name>.cpp for `variant`; returns the binary path.
     fine_tus: dispenso TUs to recompile with plain-access instrumentation (E1 fine-grained mode)."""
     v = VARIANTS[variant]
-    with Lock(variant):
-        t0 = time.time()
+    t0 = time.time()
+    with Lock(variant):  # library objects and engine are shared by all harnesses of a variant
         libobjs, rh = build_lib(variant)
         engobjs = build_engine(variant)
+    with Lock(variant + "." + name):  # different harnesses of one variant build in parallel (bin/setup)
         src = src or os.path.join(VERIF, "harness", name + ".cpp")
         d = os.path.join(BUILD, variant, "bin")
         os.makedirs(d, exist_ok=True)
